@@ -34,6 +34,7 @@ func (s *Sim) cachedSets() []*asv1.StatefulSet {
 
 func (s *Sim) checkEvent(ev *eventCtx) {
 	s.oracles.eventEvals++
+	s.count("oracle.events_judged")
 	got := map[string]bool{}
 	for _, a := range ev.adds {
 		got[a] = true
@@ -290,6 +291,7 @@ func (s *Sim) checkHelpers() {
 		}
 		s.helperSeen[key] = true
 		s.oracles.helperEvals++
+		s.count("oracle.helper_pairs_judged")
 		if check, disc, detail := CheckHelperPair(specReplicas(set), set.Annotations); check != "" {
 			s.violate("C01", check, disc, detail)
 		}
